@@ -124,13 +124,13 @@ def build_indep_package(d, names, grid, filt_names, wavs, version=1):
         c.write(os.path.join(d, 'convolved', fn + '.fits'))
 
 
-def make_fitter(d, filt_names, law, ulo, uhi, distance_range=None, apertures=None, use_memmap=False, distance_unit='kpc', remove_resolved=False):
+def make_fitter(d, filt_names, law, ulo, uhi, distance_range=None, apertures=None, use_memmap=False, distance_unit='kpc', remove_resolved=False, aperture_unit='arcsec'):
     from astropy import units as u
     from sedfitter.fit import Fitter
     ap = apertures if apertures is not None else [3.0] * len(filt_names)
     dr = distance_range if distance_range is not None else [1.0, 2.0]
     with quiet():
-        return Fitter(list(filt_names), np.array(ap) * u.arcsec, d, extinction_law=law,
+        return Fitter(list(filt_names), (np.array(ap) * u.arcsec).to(getattr(u, aperture_unit)), d, extinction_law=law,
                       av_range=(ulo / 4.0, uhi / 4.0), distance_range=(np.array(dr) * u.kpc).to(getattr(u, distance_unit)),
                       use_memmap=use_memmap, remove_resolved=remove_resolved)
 
